@@ -15,7 +15,7 @@
 From Coq Require Import ZArith List Bool Lia.
 From PV Require Import Gen.C15_gen Model.C13Bdd Model.C15Uint Model.C15Cbt Model.C15Word
   Proofs.C13Circuits Proofs.C15Layout Proofs.C15Surgery Proofs.C15WordProof Proofs.C15CbtProof Proofs.C15Blind
-  Proofs.C15Examples.
+  Proofs.C15Examples Proofs.C15CbtGeneral.
 Import ListNotations.
 Open Scope Z_scope.
 
@@ -238,33 +238,34 @@ Proof. exact circuit_bootstrap_cells. Qed.
 Print Assumptions C15_circuit_bootstrap_cells.
 
 (* the premise [cbt_rows_ok] at the crate's test parameter set (N = 256, base2k = 13, dnum = 2): constant mode for
-   log_domain 1, 2 and every message; exponent mode through the packing branch of post_process *)
+   log_domain 1, 2 and every message; exponent mode through both branches of post_process (packing, and trace only
+   when log_gap_out = log_gap_in — the branch repaired by /repo commit b689fc8) *)
 Theorem C15_cbt_rows_ok_partial :
   forallb (fun ld => forallb (fun m => cbt_rows_ok 8 13 2 false ld 0 m) (zseq 0 (Z.to_nat (2 ^ ld)))) [1; 2] = true /\
-  forallb (fun lgo => forallb (fun m => cbt_rows_ok 8 13 2 true 1 lgo m) [0; 1]) [0; 1; 2; 3; 4; 5; 6] = true /\
-  forallb (fun lgo => forallb (fun m => cbt_rows_ok 8 13 2 true 2 lgo m) [0; 1; 2; 3]) [0; 1; 2; 3; 4; 5] = true.
-Proof. exact (conj cbt_rows_ok_constant_test cbt_rows_ok_exponent_pack_test). Qed.
+  (log_gap_in 8 2 1 = 7 /\ log_gap_in 8 2 2 = 6 /\
+   forallb (fun lgo => forallb (fun m => cbt_rows_ok 8 13 2 true 1 lgo m) [0; 1]) [0; 1; 2; 3; 4; 5; 6; 7] = true /\
+   forallb (fun lgo => forallb (fun m => cbt_rows_ok 8 13 2 true 2 lgo m) [0; 1; 2; 3]) [0; 1; 2; 3; 4; 5; 6] = true).
+Proof. exact (conj cbt_rows_ok_constant_test cbt_rows_ok_exponent_test). Qed.
 Print Assumptions C15_cbt_rows_ok_partial.
 
-(* the full statement (all parameter sets; exponent mode also when log_gap_out = log_gap_in) — not proved, and its
-   exponent-mode half is FALSE on the faithful model: see the refutation below *)
+(* constant mode (the mode FheUintPrepared::prepare uses) for ALL parameter sets: every ring degree, gadget (base2k, dnum)
+   and log_domain with 2^ld * next_pow2(dnum) < 2^logn (the code's assert gap > 0) and ld < base2k, every message *)
+Theorem C15_cbt_rows_ok_constant : forall logn base2k dnum ld m,
+  1 <= dnum -> 0 <= ld -> ld + 1 <= base2k ->
+  2 * (2 ^ ld * next_pow2 dnum) <= 2 ^ logn -> 0 <= logn ->
+  0 <= m < 2 ^ ld ->
+  cbt_rows_ok logn base2k dnum false ld 0 m = true.
+Proof. exact cbt_rows_ok_constant_general. Qed.
+Print Assumptions C15_cbt_rows_ok_constant.
+
+(* the full statement (all parameter sets, both modes); its constant-mode half is C15_cbt_rows_ok_constant, the
+   exponent-mode half is proved at the test parameter set only (C15_cbt_rows_ok_partial) *)
 Definition C15_cbt_rows_ok_full : Prop :=
   forall logn base2k dnum expo ld lgo m,
-    1 <= dnum -> 1 <= base2k -> 0 <= ld -> 0 <= lgo -> 2 ^ ld * next_pow2 dnum <= 2 ^ logn -> 0 <= m < 2 ^ ld ->
+    1 <= dnum -> 0 <= ld -> ld + 1 <= base2k -> 0 <= lgo -> 0 <= logn ->
+    2 * (2 ^ ld * next_pow2 dnum) <= 2 ^ logn -> 0 <= m < 2 ^ ld ->
     (2 ^ ld - 1) * 2 ^ lgo < 2 ^ logn ->
     cbt_rows_ok logn base2k dnum expo ld lgo m = true.
-
-(* exponent mode with log_gap_out = log_gap_in (post_process only traces): the partial trace starts one level too
-   late and keeps the multiples of 2^(log_gap_in - 1); row 1 then carries, besides X^0, the entry of row 0 of the
-   lookup table: -2^13 * X^192 *)
-Theorem C15_cbt_exponent_trace_path_refuted :
-  log_gap_in 8 2 1 = 7 /\ cbt_rows_ok 8 13 2 true 1 7 0 = false /\ cbt_rows_ok 8 13 2 true 1 7 1 = false /\
-  match cb_row 8 13 2 true 1 7 0 1 with
-  | Some q => (row_decoded 13 2 1 q 0 =? 1) && (row_decoded 13 2 1 q 192 =? - 8192)
-  | None => false
-  end = true.
-Proof. exact cbt_exponent_trace_path_refuted. Qed.
-Print Assumptions C15_cbt_exponent_trace_path_refuted.
 
 (** * Examples: the statements are not vacuous *)
 
